@@ -18,7 +18,8 @@ FORBIDDEN_END = {"br", "img", "input", "hr"}
 
 def ctxvals(payload='<b>&"x'):
     return dict(s=payload, n=7, z=0, e="", lst=["a", "<b>", "c"], elst=[], m={"k": "v&", "lst": [1, 2]}, none=None,
-                nested=[[1, 2], [3]], people=[{"name": "Ann", "age": 30}, {"name": "Bo<b>", "age": 0}], title="A 'title' & more")
+                nested=[[1, 2], [3]], people=[{"name": "Ann", "age": 30}, {"name": "Bo<b>", "age": 0}], title="A 'title' & more",
+                mixed=[{"name": "alpha"}, {"name": None}, {"name": "gamma"}, {}, {"name": ""}, {"name": "last"}])
 
 
 PATHS = ["s", "n", "z", "e", "lst", "elst", "m/k", "m/lst", "none", "missing", "missing/x", "nothing", "default", "x", "y",
@@ -26,9 +27,14 @@ PATHS = ["s", "n", "z", "e", "lst", "elst", "m/k", "m/lst", "none", "missing", "
          "repeat/x/letter", "repeat/y/Letter", "repeat/x/roman", "repeat/y/Roman", "x | s", "missing | n", "missing | nothing",
          "missing | default", "not:lst", "not:elst", "not:missing", "not:default", "exists:missing", "exists:s", "exists:missing | m/k",
          "string:lit ${s} $$ ${missing} $n end", "string:$title!", "string:trailing $", "nocall:n", "attrs/class | string:noattr", "nested",
-         "people/0/name", "people/1/age", "x/name", "path:title", "python: 'PYTHON-ORACLE'", "title", "lst/1", "lst/9", "m/missing | z"]
+         "people/0/name", "people/1/age", "x/name", "path:title", "python: 'PYTHON-ORACLE'", "title", "lst/1", "lst/9", "m/missing | z",
+         # values that differ from one repeat pass to the next (a value, then nothing / default / missing)
+         "x/name | default", "x/name | nothing", "y/name", "x/name | string:(unnamed)",
+         # full TALES expressions inside ${...}: alternation and prefixes; $name is a plain path
+         "string:t=${missing/title | title};", "string:${not:z}-${exists:s}-${exists:missing}", "string:${string:in ${n} ner}", "string:${x/name | string:none}!",
+         "string:$missing|s $n|z", "string:${nocall:n}${path:s}", " s", "  python: 'PYTHON-ORACLE'", "string:${ python: 'PYTHON-ORACLE' }", "\tn"]
 TRUE_PATHS = ["s", "n", "lst", "m/k", "title", "default", "not:missing", "exists:s", "people"]
-SEQ_PATHS = ["lst", "lst", "people", "nested", "m/lst", "elst", "s", "x", "none", "missing", "n", "default"]
+SEQ_PATHS = ["lst", "lst", "people", "nested", "m/lst", "elst", "s", "x", "none", "missing", "n", "default", "mixed", "mixed"]
 
 
 def gen(rnd, depth=0):
@@ -45,7 +51,7 @@ def gen(rnd, depth=0):
     if rnd.random() < 0.62:
         if rnd.random() < 0.25:
             tal["define"] = rnd.choice(["v s", "v n; w string:W", "global g s", "v lst", "v missing | string:dflt", "local v people; global h n",
-                                        "v nothing", "x title"])
+                                        "v nothing", "x title", "v  python: 'PYTHON-ORACLE'", "v string:a; global g2 string:b", "v missing; global g3 nothing"])
         if rnd.random() < 0.3:
             tal["condition"] = rnd.choice(TRUE_PATHS) if rnd.random() < 0.7 else rnd.choice(PATHS)
         if rnd.random() < 0.35:
@@ -57,7 +63,7 @@ def gen(rnd, depth=0):
             tal["replace"] = rnd.choice(["", "structure "]) + rnd.choice(PATHS + ["v", "x"])
         if rnd.random() < 0.25:
             tal["attributes"] = rnd.choice(["class s", "class nothing", "class default; id n", "href x", "title missing | string:t", "class v",
-                                            "alt title; class z", "id repeat/x/number"])
+                                            "alt title; class z", "id repeat/x/number", "href  python: 'PYTHON-ORACLE'", "title x/name | default"])
         if rnd.random() < 0.2:
             tal["omit-tag"] = rnd.choice(["", "s", "elst", "nothing", "missing", "default", "z"])
     kids = [] if tag in FORBIDDEN_END else [gen(rnd, depth + 1) for _ in range(rnd.randint(0, 3))]
@@ -489,7 +495,7 @@ def evstring(c, e, attrs):
                         out += tostr(v)
                     i = j + 1
                     continue
-                i += 2
+                i += 1          # no closing brace: TALES leaves this open; simpleTAL drops the '$' and goes on with '{'
                 continue
             j = e.find(" ", i + 1)
             if j == -1:
